@@ -130,6 +130,40 @@ impl Model {
         n
     }
 
+    /// `phys` for every object at once (one pass)
+    pub fn phys_all(&self) -> BTreeMap<Id, u32> {
+        let mut n: BTreeMap<Id, u32> = BTreeMap::new();
+        for &t in self.ph.values() {
+            *n.entry(t).or_insert(0) += 1;
+        }
+        for &t in &self.temps {
+            *n.entry(t).or_insert(0) += 1;
+        }
+        for &(t, c) in self.raws.values() {
+            *n.entry(t).or_insert(0) += c;
+        }
+        for o in self.objs.values() {
+            for &(_, t) in &o.slots {
+                *n.entry(t).or_insert(0) += 1;
+            }
+        }
+        n
+    }
+
+    /// `nweak` for every (object, epoch) at once (one pass)
+    pub fn nweak_all(&self) -> BTreeMap<(Id, u32), u32> {
+        let mut n: BTreeMap<(Id, u32), u32> = BTreeMap::new();
+        for &(t, e) in self.pw.values() {
+            *n.entry((t, e)).or_insert(0) += 1;
+        }
+        for o in self.objs.values() {
+            for &(_, t, e) in &o.wslots {
+                *n.entry((t, e)).or_insert(0) += 1;
+            }
+        }
+        n
+    }
+
     /// number of existing Weak handles to the current allocation of `t`
     pub fn nweak(&self, t: Id, epoch: u32) -> u32 {
         let mut n = self.pw.values().filter(|&&(x, e)| x == t && e == epoch).count() as u32;
